@@ -154,5 +154,15 @@ def main(seed=0):
            c13.check_iter([[(1, 'n')]], [(11, 500001), (0, 0)], 480) is not None)
     expect('C13 driver accepts the right time',
            c13.check_iter([[(1, 'n')]], [(11, 500000), (0, 0)], 480) is None)
+    # ---- interpreter variants: an unmodified child reports nothing, a sabotaged decoder is reported
+    import os
+    from . import variants
+    expect('variants: the wire item passes in a python -O child', variants.run_child('opt', ['wire']) == [])
+    os.environ['VF_VARIANT_SABOTAGE'] = '1'
+    try:
+        bad = variants.run_child('warp', ['wire'])
+    finally:
+        del os.environ['VF_VARIANT_SABOTAGE']
+    expect('variants: a decoder that loses an attribute is reported', any(p == 'C01' for p, _, _ in bad))
     print('selftest: %d failures' % len(fails))
     return 2 if fails else 0
